@@ -204,9 +204,9 @@ PROPS["C07"] = dict(
     theorems="Properties/C07.v",
     proof_files=["Bus/BusModel.v", "Bus/BusRun.v", "Bus/BusInv.v", "Properties/C07.v"],
     suites=[dict(name="bus07", mod="core", family="bus07", corr="Corr.BusOracle", check="check07", shard=25), dict(name="buscon", mod="core", family="buscon", corr="Corr.BusOracle", check="check07", shard=25), dict(name="busstress", mod="core", family="busstress", corr="Corr.CorrStress", check="check_stress07", shard=150)],
-    level_text="Proved in Coq for EVERY schedule of every program: two different actors never hold the lock of the same Sequential registration, and an actor is inside such a handler's body only while holding it (lock-discipline invariant over micro-steps, incl. panics and pending calls). The ordering clause for Async+Sequential handlers is REFUTED on the faithful model (theorem C07_async_order_refuted, a 2-event schedule) and reproduced on the real code by the controller: known finding. Exactly-once delivery is C01/C02. Tied to the code by controller-driven runs with sync/async Sequential handlers and 1-3 publishers; the harness itself flags overlapping invocations.",
+    level_text="Proved in Coq for EVERY schedule of every program: two different actors never hold the lock of the same Sequential registration, and an actor is inside such a handler's body only while holding it (lock-discipline invariant over micro-steps, incl. panics and pending calls). The ordering clause for Async+Sequential handlers (refuted on the model of the original code and reproduced on it by the controller - defect F2, repaired in /repo by ef97bac) is proved for the repaired code's per-handler turn queue, over every schedule: the queue-discipline invariant (C07_turn_queue), deliveries to a handler finish in exactly the order in which they were dispatched (C07_async_sequential_fifo), a delivery starts only when everything dispatched before it has finished (C07_async_sequential_starts_in_turn), and the dispatch step queues the delivery on the publishing goroutine (C07_dispatch_queues_at_end), whose own publishes are sequential. Exactly-once delivery is C01/C02. Tied to the code by controller-driven runs with sync/async Sequential handlers and 1-3 publishers (a delivery that runs out of turn cannot be replayed on the model: disagreement), by the oracle's publish-order clause, and by the free-running busstress suite (per-publisher order at every Sequential handler; bursts to a fresh Async+Sequential handler on one P and on many); the harness itself flags overlapping invocations.",
     level_note='Trusted: Coq kernel + vm_compute; the hand-written small-step model of event_bus.go / persistEvent (flat registry; sync.Mutex, RWMutex, WaitGroup, atomic CAS, goroutine creation and recover are modelled as atomic micro-steps); the controller harness (parks goroutines at user-code callbacks, reads goroutine states from runtime.Stack) and the replay of its log on the model (Bus/BusRun.v); the oracle Corr/BusOracle.v; interleavings strictly inside bus code are not forced by the controller.',
-    rule='cases = seeded random programs (threads, handler/filter/hook bodies that call back into the bus, options) run on the real bus under the controller with a seeded random schedule; every run is replayed on the Coq model along the controller log and judged by the oracle; directed witness programs run first; C07: 80% Sequential, 60% async, observability on in half the cases so that async deliveries can be held before the lock; directed: the 2-event reordering; non-trivial = every case; distinct = distinct program+schedule',
+    rule='cases = seeded random programs (threads, handler/filter/hook bodies that call back into the bus, options) run on the real bus under the controller with a seeded random schedule; every run is replayed on the Coq model along the controller log and judged by the oracle; directed witness programs run first; C07: 80% Sequential, 60% async, observability on in half the cases so that async deliveries can be held before the lock; directed: the 2-event reordering (the second delivery goroutine is offered the first turn); busstress: free-running publishers, per-publisher order and single-publisher bursts; non-trivial = every case; distinct = distinct program+schedule',
 )
 PROPS["C08"] = dict(
     title='Cancellation, context propagation and publish hooks behave predictably',
